@@ -330,13 +330,13 @@ Print Assumptions error_leaves_zone_authenticated.
 Theorem unsigned_message_never_applies : forall s m s' o,
   req_tsig s = true -> m_tsig m = false ->
   process_message s m = (s', o) -> pub s' = pub s.
-Proof. exact XfrTsig.unsigned_message_never_applies. Qed.
+Proof. exact XfrSafety.unsigned_message_never_applies. Qed.
 Print Assumptions unsigned_message_never_applies.
 
-(* a completed authenticated transfer changed the zone only if the message that completed it was signed *)
+(* an authenticated transfer only completes on a signed message (the last one processed) *)
 Theorem authenticated_completion_is_signed : forall z rdt ser udp ws z' n,
   xfr_run true z rdt ser udp ws = (Done z', n) ->
-  z' = z \/ exists w, nth_error ws (pred n) = Some w /\ w_tsig w = true.
+  exists w, nth_error ws (pred n) = Some w /\ w_tsig w = true.
 Proof. exact XfrTsig.authenticated_completion_is_signed. Qed.
 Print Assumptions authenticated_completion_is_signed.
 
